@@ -231,7 +231,16 @@ func (propC11) Gen(r *Rng, tier string) *World {
 		for _, v := range w.Cfg.Vars {
 			p.Bind[v.Name] = rawValue(g, v.Ty)
 		}
-		w.Steps = append(w.Steps, Step{Op: "oneshot", Expr: r.Intn(len(w.Progs)), Plan: &p})
+		pi := r.Intn(len(w.Progs))
+		w.Steps = append(w.Steps, Step{Op: "oneshot", Expr: pi, Plan: &p})
+		for k, n := 0, r.Intn(3); k < n; k++ {
+			// the same text again with another binding (and another map order)
+			q := Plan{Bind: map[string]V{}}
+			for _, v := range w.Cfg.Vars {
+				q.Bind[v.Name] = rawValue(g, v.Ty)
+			}
+			w.Steps = append(w.Steps, Step{Op: "oneshot", Expr: pi, Plan: &q})
+		}
 	}
 	if r.P(0.3) {
 		// eval.Eval(text, vals, ExtendConf(cc)): the one-shot helper on top of the
